@@ -1010,7 +1010,7 @@ func genC18(tier string, seed uint64) []genOut {
 					f = last
 				}
 				last = f
-				if string(f) == "nope" || string(f) == "other" || len(f) == 0 {
+				if string(f) == "nope" || string(f) == "other" || (len(f) == 0 && !cb.u.hasField(f)) {
 					unknown = true
 				}
 				t := ts[r.Intn(len(ts))]
